@@ -6,14 +6,15 @@
 EXTENDS Integers, Sequences, TLC, Json
 CONSTANTS Depth, Side
 
-Peer == {"PHeader", "PHeaderBad", "POpen", "PClose", "PCloseErr", "PBeginUnk", "PBeginOk", "PEndUnmapped", "PEmpty", "PEof", "POpenAgain"}
+\* PFlowUnmapped / PAttachUnmapped: session and link frames on a channel on which no begin was ever exchanged
+Peer == {"PHeader", "PHeaderBad", "POpen", "PClose", "PCloseErr", "PBeginUnk", "PBeginOk", "PEndUnmapped", "PEmpty", "PEof", "POpenAgain", "PFlowUnmapped", "PAttachUnmapped"}
 App  == {"AClose", "ACloseErr", "ABegin", "ADrop", "AOnClose"}
 
 VARIABLES script, over, opened, localClosed, begun
 vars == <<script, over, opened, localClosed, begun>>
 Init == script = <<>> /\ over = FALSE /\ opened = FALSE /\ localClosed = FALSE /\ begun = FALSE
 Has(e) == \E i \in DOMAIN script : script[i] = e
-Bad == {"PHeaderBad", "PBeginUnk", "PEndUnmapped", "PClose", "PCloseErr", "POpenAgain"}
+Bad == {"PHeaderBad", "PBeginUnk", "PEndUnmapped", "PClose", "PCloseErr", "POpenAgain", "PFlowUnmapped", "PAttachUnmapped"}
 Step(e) ==
   /\ ~over /\ Len(script) < Depth
   /\ (e \in App => opened /\ ~localClosed)            \* the application holds a handle only after open()/accept() returned
@@ -36,6 +37,8 @@ Conc(e) ==
     [] e = "POpenAgain" -> [e |-> "PFrame", perf |-> "open", ch |-> 0, f |-> [mfs |-> 4096, chmax |-> 10]]
     [] e = "PClose" -> [e |-> "PFrame", perf |-> "close", ch |-> 0, f |-> [err |-> ""]]
     [] e = "PCloseErr" -> [e |-> "PFrame", perf |-> "close", ch |-> 0, f |-> [err |-> "x:forced"]]
+    [] e = "PFlowUnmapped" -> [e |-> "PFrame", perf |-> "flow", ch |-> 7, f |-> [nii |-> 0, iw |-> 10, noi |-> 0, ow |-> 10]]
+    [] e = "PAttachUnmapped" -> [e |-> "PFrame", perf |-> "attach", ch |-> 7, f |-> [name |-> "x", h |-> 0, role |-> "s", snd |-> 2, rcv |-> 0, idc |-> 0]]
     [] e = "PBeginUnk" -> [e |-> "PFrame", perf |-> "begin", ch |-> 4, f |-> [rch |-> 9, noi |-> 0, iw |-> 10, ow |-> 10]]
     [] e = "PBeginOk" -> IF Side = "client" THEN [e |-> "PFrame", perf |-> "begin", ch |-> 3, f |-> [rch |-> [ref |-> "s1"], noi |-> 0, iw |-> 10, ow |-> 10]]
                          ELSE [e |-> "PFrame", perf |-> "begin", ch |-> 3, f |-> [rch |-> -1, noi |-> 0, iw |-> 10, ow |-> 10]]
